@@ -5,6 +5,7 @@ C17 - inventories: faithful write, survivable read.
   R17.3 every decoding stage reports its failure and keeps what is still usable (complete lines of a truncated stream, decodable lines)
   R17.4 writer/reader agreement on the line format; one line per visible object
   R17.5 the inventory lists the subjects that were written
+  R17.6 a suffix that is tested for is the suffix that is replaced (the `$` abbreviation of a location)
 Does not decide: equality after a real round trip, Sphinx's own loader.
 """
 from __future__ import annotations
@@ -339,3 +340,35 @@ def run(repo: Repo, chk: Check, thorough: bool = False) -> None:
                    'the subjects are re-bound only under `not options.makehtml`' if not bad else
                    f'`{norm(bad[0])}` (line {bad[0].lineno}) replaces the subjects after the pages were written: the inventory maps names to pages '
                    'that were not generated (--html-subject / --html-summary-pages)', mk.loc)
+
+    # ------------------------------------------------------------------ R17.6
+    # getLink expands the abbreviation of the inventory format: a location ending in `$` stands for the location with the name in its place.
+    # Whatever the tested suffix is, the characters replaced by the name are exactly the characters tested for: `endswith(S)` + `[:-k] + name` with
+    # k != len(S) either leaves a part of the marker in the link or only recognises the marker behind a fixed prefix (`#$` but not `#module-$`)
+    gl = repo.func('pydoctor.sphinx.SphinxInventory.getLink')
+    n6 = 0
+    for n in gl.walk():
+        if not isinstance(n, ast.If):
+            continue
+        ew = [c for c in ast.walk(n.test) if isinstance(c, ast.Call) and isinstance(c.func, ast.Attribute) and c.func.attr == 'endswith' and c.args and
+              isinstance(c.args[0], ast.Constant) and isinstance(c.args[0].value, str) and isinstance(c.func.value, ast.Name)]
+        for c in ew:
+            v = c.func.value.id
+            cuts = [x for st in n.body for x in ast.walk(st) if isinstance(x, ast.Subscript) and isinstance(x.value, ast.Name) and x.value.id == v and
+                    isinstance(x.slice, ast.Slice) and x.slice.lower is None and isinstance(x.slice.upper, ast.UnaryOp) and isinstance(x.slice.upper.op, ast.USub) and
+                    (isinstance(x.slice.upper.operand, ast.Constant) or
+                     (isinstance(x.slice.upper.operand, ast.Call) and call_name(x.slice.upper.operand) == 'len' and x.slice.upper.operand.args and
+                      isinstance(x.slice.upper.operand.args[0], ast.Constant)))]
+            for x in cuts:
+                n6 += 1
+                opd = x.slice.upper.operand
+                k = opd.value if isinstance(opd, ast.Constant) else len(opd.args[0].value)
+                ok6 = k == len(c.args[0].value)
+                chk.ob('R17.6', 'pydoctor.sphinx.SphinxInventory.getLink :: the tested suffix is the replaced suffix', ok6,
+                       f'`{norm(c)}` and `{norm(x)}`' if ok6 else
+                       f'`{norm(c)}` tests for {len(c.args[0].value)} character(s) but `{norm(x)}` replaces {k}: the `$` that stands for the name is only expanded '
+                       'behind that prefix - `library/os.path.html#module-$` (every module entry Sphinx writes) keeps its `$` and resolves to an anchor that '
+                       'does not exist', repo.loc(gl.mod, c))
+    if n6 < 1:
+        raise AnalysisError('R17.6: the `$` expansion of getLink (endswith + slice) was not found')
+    chk.require('R17.6', 1)
